@@ -400,6 +400,8 @@ def main(argv=None):
         if st['failures']:
             print('HARNESS-ERROR shim self-test: %s' % st['failures'][:3])
             return 2
+        if st.get('not_encodable'):
+            print('NOT-ENCODABLE shim self-test (the paths that reach these constructs are inconclusive): %s' % st['not_encodable'][:3])
         cfg = dict(DEFAULT_CFG[a.tier])
         cfg.update(getattr(hm, 'CONFIG', {}).get(a.tier, {}))
         cases = hm.cases(a.tier, seed)
@@ -558,7 +560,7 @@ def main(argv=None):
                     nra_queries=agg['nra_queries'], solver_s=round(agg['solver_s'], 2), per_query_timeout_ms=cfg['qtimeout_ms']),
         functions_encoded=getattr(hm, 'FUNCTIONS', []), bounds=getattr(hm, 'BOUNDS', {}).get(a.tier, getattr(hm, 'BOUNDS', {})),
         stubs=getattr(hm, 'STUBS', []), source_files={k: v for k, v in sorted(L.files.items())},
-        shim_selftest=dict(checks=st['checks'], failures=0),
+        shim_selftest=dict(checks=st['checks'], failures=0, not_encodable=st.get('not_encodable', [])),
         unknown_samples=unknown[:5], known_findings=[dict(id=k, hits=v[1]) for k, v in known_hits.items()],
         exhaustive=(skipped == 0 and truncated == 0 and agg['unknown'] == 0 and not notenc),
         violations=[dict(replay=p, case=c, kind=cd['kind'], label=cd['label']) for p, c, cd in reported],
@@ -591,6 +593,9 @@ def main(argv=None):
             print('VIOLATION property=%s replay=%s' % (prop, p))
             print('  case=%s kind=%s label=%s %s' % (json.dumps(case, default=str), cand['kind'], cand['label'], cand.get('exc') or ''))
         return 1
+    if notenc and len(notenc) >= agg['paths']:
+        print('INCONCLUSIVE property=%s every explored path reached a construct the encoding does not model: nothing was decided' % prop)
+        return 0
     print('PASS property=%s' % prop)
     return 0
 
